@@ -24,6 +24,9 @@ static void my_call_rcu(struct rcu_head *h, void (*f)(struct rcu_head *))
 
 	if (i >= 40)
 		vrt_internal("too many callbacks");
+	/* like the real call_rcu(): the rcu_head belongs to the callback machinery from now on and is written at once */
+	cds_wfcq_node_init(&h->next);
+	h->func = f;
 	vrt_note_set(N_PH(i), (unsigned long)h);
 	vrt_note_set(N_PF(i), (unsigned long)f);
 }
@@ -131,6 +134,13 @@ static void finish_checks(const char *what, int enq)
 {
 	int i, out = 0, r;
 
+	/* quiescent now: while user nodes are still queued (whatever dummy nodes the races left in between) destroy must refuse */
+	for (i = 0; i < vrt_h_count(); i++)
+		if (vrt_h_get(i)->op == OP_DEQ && vrt_h_get(i)->ret > 0)
+			out++;
+	if (out < enq)
+		VRT_CHECK(cds_lfq_destroy_rcu(&q) == -EPERM, "%s: cds_lfq_destroy_rcu succeeded although %d node(s) are still queued", what, enq - out);
+	out = 0;
 	while (do_deq() > 0)
 		;
 	vrt_lin_assert(&qspec, what);
